@@ -78,6 +78,8 @@ FIXED = [
  ("C17", "df85c75", "every prefix of a saved rule file ending inside the relocation table was loaded successfully"),
  ("C10", "elf-fix", "elf module leaked one ELF structure per extra memory block of a scan"),
  ("C10", "e224a00", "scanner->last_error_string was never reset: a later unrelated failure on a reused scanner was attributed to the string of an earlier scan"),
+ ("C20", "7920122", "an external variable named like a built-in module that is not imported (hash, time, math, ...) was destroyed at the end of the first scan: the next scan on the same scanner aborted on assert(r1.o != NULL) (`yara -d hash=1 rules dir`)"),
+ ("C20", "43aa735", "the compile-time value of `a >> b` was computed with <<: `$a at (42 >> 3)` never matched although the same expression over an integer external (value unknown at compile time) did"),
  ("C18", "cli-culprit-fix", "yara CLI printed `string \"$x\" in rule \"r\" caused could not open file` for an unreadable file after an earlier file on the same thread had hit a limit"),
 ]
 
